@@ -1,6 +1,6 @@
 (* C15 - Suzuki recursion bookkeeping, for every order, time and split factors. *)
-From Coq Require Import QArith Qcanon Arith List.
-From OFV Require Import Thm.C15.Suzuki.
+From Coq Require Import QArith Qcanon Arith List Reals.
+From OFV Require Import Thm.C15.Suzuki Thm.C15.SuzukiR.
 Close Scope Qc_scope. Close Scope Q_scope.
 Theorem C15_suzuki_times_sum : forall k split t, qsum (leaves k split t) = t.
 Proof. exact suzuki_times_sum. Qed.
@@ -8,3 +8,10 @@ Print Assumptions C15_suzuki_times_sum.
 Theorem C15_suzuki_leaf_count : forall k split t, length (leaves k split t) = 5 ^ k.
 Proof. exact suzuki_leaf_count. Qed.
 Print Assumptions C15_suzuki_leaf_count.
+
+(* over the (axiomatised) real numbers of the standard library: the split factor 1/(4 - 4^(1/(2k-1))) used by
+   _perform_trotter_step cancels the order-(2k-1) error term: 4 s^(2k-1) + (1 - 4 s)^(2k-1) = 0 *)
+Theorem C15_suzuki_split_cancels : forall (m : nat) (c s : R),
+  (c ^ (2 * m + 1) = 4 -> (4 - c) * s = 1 -> 4 * s ^ (2 * m + 1) + (1 - 4 * s) ^ (2 * m + 1) = 0)%R.
+Proof. exact suzuki_split_cancels. Qed.
+Print Assumptions C15_suzuki_split_cancels.
